@@ -94,7 +94,19 @@ pub fn check(sc: &Scenario, out: &RunOutput) -> OracleResult {
                 }
                 emissions += 1;
                 // (1) never overstates
-                let cum_ref = fin_accepted.unwrap_or(cum);
+                // (a peer that goes on sending after its FIN: the numbers that follow the FIN
+                // are received in sequence too and may be acknowledged; the acknowledgement
+                // number is about sequence numbers, the stream ended at the FIN)
+                let cum_ref = match fin_accepted {
+                    Some(f) => {
+                        let mut c = f;
+                        while delivered_any.contains(&c.wrapping_add(1)) && seq_diff(c, f) < 4096 {
+                            c = c.wrapping_add(1);
+                        }
+                        c
+                    }
+                    None => cum,
+                };
                 if !seq_le(p.ack, cum_ref) {
                     // Before any data the ack number is the handshake's; accept first-1 (and the SYN seq).
                     res.violate(P, "ack-overstates", t, format!("endpoint emitted {} but only up to seq {} was delivered in order (first data seq {})", p.short(), cum_ref, first));
@@ -130,7 +142,11 @@ pub fn check(sc: &Scenario, out: &RunOutput) -> OracleResult {
                                         res.violate(P, "sack-bit-for-undelivered", t, format!("{}: bit {} claims seq {} which was never delivered", p.short(), i, s));
                                         // context for the known-finding signature: a FIN was accepted
                                         // although data beyond its number had already been delivered
-                                        let midstream_fin = fin_accepted.is_some_and(|f| delivered_any.iter().any(|d| seq_diff(*d, f) > 0));
+                                        // (or a FIN arrived that carries a number at or below data
+                                        // numbers the peer had already used - whether the endpoint
+                                        // took it as in sequence depends on what it could store)
+                                        let midstream_fin = fin_accepted.is_some_and(|f| delivered_any.iter().any(|d| seq_diff(*d, f) > 0))
+                                            || fin_seqs.iter().any(|f| delivered_any.iter().any(|d| seq_diff(*d, *f) >= 0));
                                         res.violations.last_mut().map(|v| v.aux = Some(midstream_fin as u64));
                                     }
                                 }
